@@ -299,10 +299,10 @@ pub fn def(ctx: &Ctx) -> PropDef {
     let mut subs: Vec<Box<dyn SubCheck>> = Vec::new();
     let rounds = || prop_oneof![10 => 1u8..=6, 3 => 7u8..=40, 1 => Just(64u8), 1 => Just(255u8), 1 => 41u8..=255];
     let pop = || prop_oneof![4 => Just(POp::U32), 4 => Just(POp::U64), 2 => (0usize..=20).prop_map(POp::Fill)];
-    for part in 0..4 {
+    for part in 0..8 {
         subs.push(PSub::boxed(
             format!("relations/{}", part),
-            t.pick(1000, 100_000),
+            t.pick(1500, 150_000),
             move || {
                 let rel = prop_oneof![3 => Just(Rel::R1), 3 => proptest::option::of(5usize..=40).prop_map(|x_fill| Rel::R2 { x_fill }), 3 => Just(Rel::R3)];
                 (gens::timer_prog(true, 10), rounds(), proptest::collection::vec(pop(), 0..=5), rel)
@@ -313,7 +313,7 @@ pub fn def(ctx: &Ctx) -> PropDef {
         ));
         subs.push(PSub::boxed(
             format!("history/{}", part),
-            t.pick(1000, 100_000),
+            t.pick(1500, 150_000),
             move || {
                 let hop = prop_oneof![
                     6 => Just(HOp::U32),
